@@ -66,6 +66,13 @@ def extract(profile="checked", repo=None):
     key = source_hash(repo)
     out = os.path.join(CACHE, "facts-%s-%s.json" % (profile, key))
     info = {"repo": repo, "source_hash": key, "profile": profile, "cached": True, "extract_s": 0.0}
+    lock = None
+    if not os.path.exists(out):
+        # one extraction per profile at a time (checks may be started in parallel on a cold cache): the others wait,
+        # then find the entry
+        import fcntl
+        lock = open(os.path.join(CACHE, "lock-%s" % profile), "w")
+        fcntl.flock(lock, fcntl.LOCK_EX)
     if not os.path.exists(out):
         info["cached"] = False
         t0 = time.time()
@@ -101,12 +108,15 @@ def extract(profile="checked", repo=None):
         info["extract_s"] = round(time.time() - t0, 2)
         # keep the cache small: drop fact files of other source states for this profile
         for old in glob.glob(os.path.join(CACHE, "facts-%s-*.json" % profile)):
-            if old != out and time.time() - os.path.getmtime(old) > 6 * 3600:
-                try:
+            try:
+                if old != out and time.time() - os.path.getmtime(old) > 6 * 3600:
                     os.remove(old)
-                except OSError:
-                    pass
+            except OSError:
+                pass
+        lock.close()
         return facts, info
+    if lock is not None:
+        lock.close()
     try:
         with open(out) as fh:
             return json.load(fh), info
